@@ -1,12 +1,142 @@
 (* C05 — ArcSwap's accounting and caps hold under every thread interleaving.
    Only the property theorems, each closed by [exact] of a lemma of
-   Proofs/ArcSwap*.v, with [Print Assumptions] beneath. *)
-From Coupe Require Import Lib.Prelude Model.ArcSwap Proofs.ArcSwapCut.
+   Proofs/ArcSwap*.v, with [Print Assumptions] beneath.
+
+   The machine of Model/ArcSwap.v executes one shared-memory access of one
+   worker per [step]; [run cf st0 sch] follows the schedule [sch] (a list of
+   worker ids of ANY length, spanning any number of passes) and is [None] when
+   a chosen worker has nothing left to do or the modelled code would panic.
+   Every theorem below holds for every graph with symmetric adjacency and
+   integer edge weights, every number of chunks, every initial partition and
+   every schedule: they are inductive invariants of [step].
+   Assumed, not proved: sequential consistency (the interleaving semantics
+   itself), integer (i64, non-overflowing) weights. *)
+From Coupe Require Import Lib.Prelude Lib.SFloat Model.ArcSwap Proofs.ArcSwapCut Proofs.ArcSwapProto
+  Proofs.ArcSwapAcct Proofs.ArcSwapCaps Proofs.ArcSwapSafe.
 Open Scope Z_scope.
 
-(* moving one vertex of a symmetric weighted graph changes the edge cut by minus its gain *)
-Theorem C05_cut_move : forall (wt : nat -> nat -> Z), (forall u v, wt u v = wt v u) ->
-  forall n p x b, (x < n)%nat -> p x <> b ->
-  cut_fn wt n (upd p x b) = cut_fn wt n p - gain_fn wt n p x b.
-Proof. exact cut_move. Qed.
-Print Assumptions C05_cut_move.
+(* the lemma behind the accounting: moving one vertex of a symmetric weighted graph changes the
+   edge cut (Topology::edge_cut) by minus the gain read from the vertex's adjacency row *)
+Theorem C05_cut_store : forall g, (forall a b, wt g a b = wt g b a) ->
+  (forall a u, In u (nbrs g a) -> (u < length g)%nat) ->
+  forall p v tg, (v < length p)%nat -> (v < length g)%nat -> ~ In v (nbrs g v) -> pid p v <> tg ->
+  cut g (set_nth p v tg) = cut g p - row_gain p (pid p v) tg (row g v).
+Proof. exact cut_store. Qed.
+Print Assumptions C05_cut_store.
+
+(* stage 1 — two workers are never both past their neighbour-lock check (evaluating, storing, or
+   about to release after a store) on equal or adjacent vertices: adjacent vertices are never
+   moved concurrently *)
+Theorem C05_arcswap_mutex : forall cf p0,
+  graph_ok (cf_g cf) -> length p0 = length (cf_g cf) -> Forall (fun x => (x < cf_k cf)%nat) p0 ->
+  forall st0 sch st, init_state cf p0 = Some st0 -> run cf st0 sch = Some st ->
+  no_adjacent_critical (cf_g cf) st.
+Proof. exact arcswap_mutex. Qed.
+Print Assumptions C05_arcswap_mutex.
+
+(* stage 1 — whenever a worker is about to store part [tg] at [v] with the gain [gn] it summed
+   from reads spread over many steps, [gn] is exactly the cut delta of that store IN THE CURRENT
+   shared state (no neighbour changed part in between), and it is positive *)
+Theorem C05_arcswap_gain_exact : forall cf p0,
+  graph_ok (cf_g cf) -> length p0 = length (cf_g cf) -> Forall (fun x => (x < cf_k cf)%nat) p0 ->
+  forall st0 sch st t w v ip tg gn, init_state cf p0 = Some st0 -> run cf st0 sch = Some st ->
+  nth_opt (g_ws st) t = Some w -> w_pc w = PStore v ip tg gn ->
+  cut (cf_g cf) (set_nth (g_part st) v tg) = cut (cf_g cf) (g_part st) - gn /\ 0 < gn
+  /\ pid (g_part st) v = ip /\ tg <> ip.
+Proof. exact arcswap_gain_exact. Qed.
+Print Assumptions C05_arcswap_gain_exact.
+
+(* stage 2 — at every reachable state: input cut - current cut = sum of the gains recorded so
+   far, which is >= 0; the partition is valid; move_count >= number of relabelled vertices *)
+Theorem C05_arcswap_accounting : forall cf p0,
+  graph_ok (cf_g cf) -> length p0 = length (cf_g cf) -> Forall (fun x => (x < cf_k cf)%nat) p0 ->
+  forall st0 sch st, init_state cf p0 = Some st0 -> run cf st0 sch = Some st ->
+  cut (cf_g cf) p0 - cut (cf_g cf) (g_part st) = total_gain st /\ 0 <= total_gain st
+  /\ length (g_part st) = length p0 /\ Forall (fun x => (x < cf_k cf)%nat) (g_part st)
+  /\ relabelled p0 (g_part st) <= total_moves st.
+Proof. exact arcswap_accounting. Qed.
+Print Assumptions C05_arcswap_accounting.
+
+(* stage 3 — integer weights: at every reachable state (in particular after any number of
+   passes) every part weighs at most max(its input weight, cap), for ANY cap and any per-thread
+   share function that never hands out more than 1/thread_count of a headroom *)
+Theorem C05_arcswap_caps : forall cf p0,
+  graph_ok (cf_g cf) -> length p0 = length (cf_g cf) -> Forall (fun x => (x < cf_k cf)%nat) p0 ->
+  Forall (fun x => 0 <= x) (cf_vw cf) -> hr_ok cf ->
+  forall st0 sch st, init_state cf p0 = Some st0 -> run cf st0 sch = Some st ->
+  forall q, (q < cf_k cf)%nat ->
+    load (cf_vw cf) (g_part st) q <= Z.max (load (cf_vw cf) p0 q) (cf_cap cf).
+Proof. exact arcswap_caps. Qed.
+Print Assumptions C05_arcswap_caps.
+
+(* the property, for the configuration arc_swap derives from its arguments and the pool size T
+   (chunking by work_share, part_count = max(2, 1 + max id), f64 share accepted where exact) *)
+Theorem C05_arcswap_safe : forall g vw p0 T cap st0 sch st,
+  graph_ok g -> length p0 = length g -> Forall (fun x => 0 <= x) vw ->
+  let cf := config_of headroom_checked g vw p0 T cap in
+  init_state cf p0 = Some st0 -> run cf st0 sch = Some st ->
+  no_adjacent_critical g st
+  /\ cut g p0 - cut g (g_part st) = total_gain st /\ 0 <= total_gain st
+  /\ (forall q, (q < part_count p0)%nat -> load vw (g_part st) q <= Z.max (load vw p0 q) cap)
+  /\ length (g_part st) = length p0 /\ Forall (fun x => (x < part_count p0)%nat) (g_part st)
+  /\ relabelled p0 (g_part st) <= total_moves st
+  /\ (g_fin st = true -> total_gain st = md_gain (g_md st) /\ total_moves st = md_moves (g_md st)).
+Proof. exact arcswap_safe_impl. Qed.
+Print Assumptions C05_arcswap_safe.
+
+(* a recorded run of the implementation that the machine accepts event by event, and that ends
+   with the outer loop left, satisfies the property's clauses on outputs with the machine's
+   final Metadata (the run glue checks that these equal the implementation's) *)
+Theorem C05_replayed_run_safe : forall g vw p0 T cap st0 tr st,
+  graph_ok g -> length p0 = length g -> Forall (fun x => 0 <= x) vw ->
+  let cf := config_of headroom_checked g vw p0 T cap in
+  init_state cf p0 = Some st0 -> replay cf st0 tr = Some st -> g_fin st = true ->
+  cut g p0 - cut g (g_part st) = md_gain (g_md st) /\ 0 <= md_gain (g_md st)
+  /\ (forall q, (q < part_count p0)%nat -> load vw (g_part st) q <= Z.max (load vw p0 q) cap)
+  /\ length (g_part st) = length p0 /\ Forall (fun x => (x < part_count p0)%nat) (g_part st)
+  /\ relabelled p0 (g_part st) <= md_moves (g_md st).
+Proof. exact arcswap_replayed_safe. Qed.
+Print Assumptions C05_replayed_run_safe.
+
+(* the share the theorems need is what exact integer division gives *)
+Theorem C05_headroom_checked_ok : forall cf, cf_hr cf = headroom_checked -> hr_ok cf.
+Proof. exact headroom_checked_ok. Qed.
+Print Assumptions C05_headroom_checked_ok.
+
+(* the contract the run glue evaluates is the hypothesis of the theorems *)
+Theorem C05_graph_okb_ok : forall g, graph_okb g = true -> graph_ok g.
+Proof. exact graph_okb_ok. Qed.
+Print Assumptions C05_graph_okb_ok.
+
+(* the checker applied to the implementation's outputs decides the property's clauses on outputs *)
+Theorem C05_checker_ok : forall g vw p0 cap tasks tr o,
+  check_C05 g vw p0 cap tasks tr o = true <->
+  (length (o_part o) = length p0 /\ Forall (fun x => (x < part_count p0)%nat) (o_part o))
+  /\ (cut g p0 - cut g (o_part o) = o_gain o /\ 0 <= o_gain o)
+  /\ (forall q, (q < part_count p0)%nat -> load vw (o_part o) q <= Z.max (load vw p0 q) cap)
+  /\ relabelled p0 (o_part o) <= o_moves o
+  /\ trace_mutex g (repeat TIdle tasks) tr = true.
+Proof. exact check_C05_ok. Qed.
+Print Assumptions C05_checker_ok.
+
+(* ---- non-vacuity: a 6-cycle with alternating parts, 3 workers, a cap that allows moves ---- *)
+Definition ex_g : graph :=
+  [[(1%nat,1);(5%nat,1)]; [(0%nat,1);(2%nat,1)]; [(1%nat,1);(3%nat,1)];
+   [(2%nat,1);(4%nat,1)]; [(3%nat,1);(5%nat,1)]; [(0%nat,1);(4%nat,1)]].
+Definition ex_p0 : list nat := [0;1;0;1;0;1]%nat.
+Definition ex_cf := config_of headroom_checked ex_g [1;1;1;1;1;1] ex_p0 3 6.
+
+Example C05_nonvacuous_contract : graph_ok ex_g /\ length ex_p0 = length ex_g.
+Proof. split; [apply graph_okb_ok; vm_compute; reflexivity|reflexivity]. Qed.
+
+(* a complete interleaved run (round-robin over the three workers, one access each): the outer
+   loop exits, vertices were moved, the cut went from 6 to 0 *)
+Example C05_nonvacuous_run :
+  exists st0 sch st, init_state ex_cf ex_p0 = Some st0 /\ run ex_cf st0 sch = Some st
+    /\ g_fin st = true /\ Nat.ltb 60 (length sch) = true /\ cut ex_g ex_p0 = 6 /\ 0 < md_gain (g_md st)
+    /\ cut ex_g ex_p0 - cut ex_g (g_part st) = md_gain (g_md st).
+Proof.
+  destruct (init_state ex_cf ex_p0) as [st0|] eqn:E0; [|vm_compute in E0; discriminate].
+  exists st0, (fst (drive ex_cf 2000 0 st0 [])), (snd (drive ex_cf 2000 0 st0 [])).
+  vm_compute in E0. injection E0 as <-. vm_compute. repeat split; reflexivity.
+Qed.
